@@ -49,6 +49,12 @@
 		F##_null(t1);														\
 		F##_null(t2);														\
 																			\
+		/* A point with y1 = 0 has order 2, the tangent is vertical. */	\
+		if (F##_is_zero(p->y)) {											\
+			C##_set_infty(r);												\
+			return;															\
+		}																	\
+																			\
 		RLC_TRY {															\
 			F##_new(t0);													\
 			F##_new(t1);													\
